@@ -175,9 +175,9 @@ impl IntoIterator for Reg {
                 }
             }
             Reg::Tmp(i, _) => {
-                if i > 15 {
+                if i > 7 {
                     Err(Error::from(format!(
-                        "Tmp Register index too big (max 15): {:?}",
+                        "Tmp Register index too big (max 7): {:?}",
                         i
                     )))
                 } else {
